@@ -89,6 +89,14 @@ func init() {
 			},
 		}
 	})
+	// a Persistence whose Load hands out its own memory (as the library's
+	// in-memory map does): what the client does to a loaded value then lands in
+	// the store
+	register("pubflowalias", func() *Scenario {
+		s := scenarios["pubflow"]()
+		s.AliasLoad = true
+		return s
+	})
 	// VolatileSession: the library's own in-memory store; retransmission after a
 	// reconnect reads what that store kept
 	register("pubflowvol", func() *Scenario {
